@@ -78,6 +78,21 @@ pub fn streams() -> Vec<(String, Vec<u8>, usize, bool)> {
     v
 }
 
+/// the typical hello followed by application-data records up to 65560 stream bytes
+fn bulk_tail_stream() -> (String, Vec<u8>, usize) {
+    let ss = streams();
+    let mut b = ss[1].1.clone();
+    let l = b.len();
+    while b.len() < 65560 {
+        let n = (65560 - b.len()).saturating_sub(5).min(16000);
+        if n == 0 {
+            b.resize(65560, 0);
+            break;
+        }
+        b.extend(tls::record(0x17, 0x0303, &vec![9; n]));
+    }
+    ("typical+64KiB-of-application-data".to_string(), b, l)
+}
 fn reference_obs(stream: &[u8], rec_len: usize, is_hello: bool) -> Option<Obs> {
     if !is_hello {
         return None;
@@ -288,6 +303,15 @@ pub fn run(thorough: bool) -> Outcome {
             }
         }
     }
+    // the segment that completes the hello also carries as much further data as an IP packet can hold (more than 64 KiB
+    // reach the reader before it has answered)
+    {
+        let (name, b, rec_len) = bulk_tail_stream();
+        let exp = reference_obs(&b, rec_len, true);
+        for cuts in [vec![100usize], vec![rec_len / 2], vec![rec_len - 1], vec![70, rec_len + 30_000], vec![rec_len - 1, rec_len + 1]] {
+            check_partition(&mut total, &name, &b, rec_len, &exp, &cuts, true);
+        }
+    }
     for (name, b, rec_len, is_hello) in &ss {
         if b.len() > 2000 {
             continue;
@@ -360,6 +384,12 @@ pub fn replay(ex: &Value) -> Report {
     let ss = streams();
     let name = ex["stream"].as_str().unwrap_or("");
     let cuts: Vec<usize> = ex["cuts"].as_array().map(|a| a.iter().filter_map(|x| x.as_u64().map(|y| y as usize)).collect()).unwrap_or_default();
+    if name == "typical+64KiB-of-application-data" {
+        let (n, b, l) = bulk_tail_stream();
+        let exp = reference_obs(&b, l, true);
+        check_partition(&mut r, &n, &b, l, &exp, &cuts, true);
+        return r;
+    }
     match ss.iter().find(|x| x.0 == name) {
         Some((n, b, l, h)) => {
             let exp = reference_obs(b, *l, *h);
